@@ -439,6 +439,33 @@ def gen_ble_siblings(tier, x_pub):
                             c["meta"]["exchanges"] = str(len(xs))
                             c["meta"]["sibling"] = f"{sname}@{['first', 'middle', 'last'][0 if where == 0 and len(pieces) > 1 else (2 if where == len(pieces) - 1 else 1)]}"
                             cells.append(c)
+            # FragmentData pieces (ZERO-LENGTH ones leave the buffer empty) with siblings, terminated by a payload WITHOUT
+            # fragment item (seed C04-M: a fast path "buffer empty and no fragment item => return this payload's items")
+            terms = collections.OrderedDict([("empty", []), ("fields", fitems), ("reply", blob_items)])
+            bufs = collections.OrderedDict([("zero-length", b""), ("fields-tlv", ref_encode(fitems))])
+            for sname, sib in sibsets.items():
+                if sname == "none":
+                    continue
+                for bname, piece in bufs.items():
+                    for tname, term in terms.items():
+                        if bname == "fields-tlv" and tname != "empty" and fitems:
+                            continue                   # fields twice: nothing new
+                        for shape in ("sib+frag", "frag+sib", "frag,sib+frag", "sib+frag,frag"):
+                            fd = [(12, piece)]
+                            fd0 = [(12, b"")]
+                            payloads = {"sib+frag": [sib + fd], "frag+sib": [fd + sib], "frag,sib+frag": [fd0, sib + fd],
+                                        "sib+frag,frag": [sib + fd, fd0]}[shape] + [term]
+                            xs = [(0, ble_wrap(ref_encode(pl))) for pl in payloads]
+                            idx += 1
+                            buffered = fitems if bname == "fields-tlv" else []
+                            c = mk_cell("ble", step, "U", sib + term + buffered, fo, fields=fname,
+                                        order=f"sibling-of-{bname}-FragmentData/plain-terminator")
+                            c["ble"] = dict(xs=xs, kind="faithful", sibling=True, pdu_frag=PDU_FRAGS[idx % len(PDU_FRAGS)], req_frag=512,
+                                            plan=f"{sname} beside a {bname} FragmentData ({shape}), then a payload without fragment item ({tname})")
+                            c["meta"]["pdu_frag"] = str(c["ble"]["pdu_frag"])
+                            c["meta"]["exchanges"] = str(len(xs))
+                            c["meta"]["sibling"] = f"{sname}@{bname}-data/plain-{tname}"
+                            cells.append(c)
             # an unterminated FragmentData buffer, then a reply without fragment item
             for sname, hidden in (("error", [(T_ERROR, b"\x02")]), ("wrong-state", [(T_STATE, bytes([e ^ 1]))])):
                 if blob_state is not None and sname == "wrong-state":
